@@ -82,6 +82,7 @@ func reservedAttempts() []reservedAttempt {
 func runC18(c *eng.Ctx) {
 	cr := &caseRunner{c: c, prop: "C18"}
 	defer func() {
+		RunWarmup(c, cr.next)
 		if C18Concurrent != nil {
 			C18Concurrent(c, cr.next)
 		}
